@@ -363,6 +363,53 @@ func runC20(c *core.Ctx) {
 		}
 		bounds = append(bounds, "fan-out: stems \"\", \"x\", \"id\" followed by each of the 256 byte values, inserted in increasing and decreasing order, prefix query checked after every insertion")
 	}
+	// 2d. long words: a word extending the queried prefix by 255..1000 bytes, with shorter siblings inserted before / after
+	if c.Shard == 0 || c.Of == 1 {
+		for _, n := range []int{100, 255, 256, 257, 258, 300, 512, 513, 1000, 5000} {
+			for _, order := range [][]string{{"L", "b", "bc", "c"}, {"b", "L", "bc", "c"}, {"b", "bc", "c", "L"}, {"L", "L2", "b", "c"}, {"c", "b", "L2", "L", "bc"}} {
+				n, order := n, order
+				cs := core.Case{Kind: "longword", Cfg: fmt.Sprint(n), Data: strings.Join(order, ",")}
+				c.Current(cs)
+				v := c.Run(func() *core.Viol {
+					t := trie.NewTrie()
+					set := map[string]bool{}
+					for step, w := range order {
+						switch w {
+						case "L":
+							w = "a" + strings.Repeat("x", n)
+						case "L2":
+							w = "a" + strings.Repeat("x", n/2) + "y" + strings.Repeat("z", n)
+						}
+						t.Insert(w)
+						set[w] = true
+						for _, p := range []string{"", "a", "b", "ax"} {
+							var want []string
+							for x := range set {
+								if strings.HasPrefix(x, p) {
+									want = append(want, x)
+								}
+							}
+							sort.Strings(want)
+							l, got := t.PrefixAll(p)
+							if strings.Join(got, "\x00") != strings.Join(want, "\x00") {
+								return &core.Viol{Class: "longword:prefixall-set", Detail: fmt.Sprintf("after step %d (word length %d): PrefixAll(%q) returned %d words, reference %d; first difference near %q", step, n, p, len(got), len(want), trunc(strings.Join(got, ","), 60)), Case: cs}
+							}
+							if len(want) > 0 && l != lcp(want) {
+								return &core.Viol{Class: "longword:prefixall-len", Detail: fmt.Sprintf("after step %d: PrefixAll(%q) length %d, reference %d", step, p, l, lcp(want)), Case: cs}
+							}
+						}
+					}
+					return nil
+				})
+				out := "longword-ok"
+				if v != nil {
+					out = v.Class
+				}
+				c.CountNT(fmt.Sprintf("longword: %d %v", n, order), out, true)
+			}
+		}
+		bounds = append(bounds, "long words: a word (and a second one diverging in its middle) of 100..5000 bytes with three short siblings in 5 insertion orders, 4 prefix queries after every insertion")
+	}
 	// 3. through the interpreter: top-level definitions recorded in a registered trie
 	if c.Shard == 0 || c.Of == 1 {
 		c20Session(c)
